@@ -988,9 +988,9 @@ def param_variants(owner: str | None, module: str, func: str, old_kw: str, clsna
             from biogeme.biogeme import BIOGEME
 
             lp, b = W.logprob()
-            values = {'suggestScales': True, 'numberOfThreads': 2, 'numberOfDraws': W.rng.randint(5, 50), 'missingData': 88888,
-                      'parameter_file': W.parameters(seed=7), 'userNotes': 'notes of the user', 'generateHtml': False,
-                      'saveIterations': False, 'seed_param': W.rng.randint(2, 999)}
+            values = {'suggestScales': True, 'numberOfThreads': 2, 'numberOfDraws': W.rng.randint(21, 50), 'missingData': 88888,
+                      'parameter_file': W.parameters(seed=7), 'userNotes': 'notes of the user', 'generateHtml': True,
+                      'saveIterations': True, 'seed_param': W.rng.randint(2, 999)}  # all different from the defaults in use
             kw = {} if old_kw == 'parameter_file' else {'parameters': W.parameters()}
             return [dict(label='constructor', recv=None, ctor=BIOGEME, args=[W.database(), lp], kwargs=kw, value=values[old_kw])]
         if func == 'estimate':
@@ -1058,9 +1058,9 @@ def forward_variants(via: str, target: str, old_kw: str, W: World):
         return [dict(label='no-pickle-to-recycle', recv=W.biogeme(), args=[], kwargs={}, value=True),
                 dict(label='weighted-model', recv=W.biogeme(weighted=True), args=[], kwargs={}, value=True)]
     if via == 'biogeme.mdcev.mdcev.Mdcev.estimate_parameters' and target == 'biogeme.biogeme.BIOGEME.__init__':
-        values = {'suggestScales': True, 'numberOfThreads': 2, 'numberOfDraws': W.rng.randint(5, 50), 'missingData': 88888,
+        values = {'suggestScales': True, 'numberOfThreads': 2, 'numberOfDraws': W.rng.randint(21, 50), 'missingData': 88888,
                   'parameter_file': W.parameters(seed=7), 'userNotes': 'notes of the user', 'generateHtml': False,
-                  'saveIterations': False, 'seed_param': W.rng.randint(2, 999)}
+                  'saveIterations': False, 'seed_param': W.rng.randint(2, 999)}  # generateHtml / saveIterations: the defaults are switched on below
         out = []
         for kind in ('translated', 'gamma_profile'):
             m, db, rest = _mdcev(W, kind)
